@@ -264,6 +264,9 @@ def _eval_const(expr: str, env: dict):
                     parts.append(str(ev(value.value)))
                     continue
                 raise ValueError("unsupported f-string")
+            if sum(len(part) for part in parts) > 4096:
+                # repeated doubling (s = f"{s}{s}") would otherwise grow without bound
+                raise ValueError("constant too large to fold")
             return "".join(parts)
         if (
             isinstance(n, ast.Call)
